@@ -576,11 +576,30 @@ def check(run, tier):
     cfg = tlc.write_cfg("MC_C09.cfg", "SPECIFICATION Spec\nCONSTANTS\n  Ops <- OpsC09\n  SPLIT_COMMIT = FALSE\n  FAULTS = 2\n  RETRY_AFTER_ROLLBACK = FALSE\n"
                         "  Tables <- TablesC09\n  SKIP_SCHEMA_IF_BASE = FALSE\n  PRUNE_ON_START = FALSE\n"
                         "INVARIANT AckedDurable\nINVARIANT AllOrNothing\nINVARIANT NoOrphanWrites\nINVARIANT FailedAbsent\n"
-                        "INVARIANT AckedOnDisk\nINVARIANT Serviceable\nPROPERTY RestartKeeps\nCHECK_DEADLOCK FALSE\n")
+                        "INVARIANT AckedOnDisk\nINVARIANT Serviceable\nPROPERTY RestartKeeps\nPROPERTY RefinesStartup\nCHECK_DEADLOCK FALSE\n")
     res = tlc.run("MC_C09", cfg, allow_violation=True)
     run.add_tlc(res, "MC_C09: crash at every step")
     if res.violated:
         raise common.MachineryFailure("Durability.tla violates %s" % res.violated)
+    # negative controls: each deviation the model can express must be REFUTED by TLC - otherwise the invariants are vacuous
+    text = open(cfg).read()
+    controls = {}
+    for const, ops in (("SPLIT_COMMIT", "OpsC09"), ("RETRY_AFTER_ROLLBACK", "OpsC09"), ("SKIP_SCHEMA_IF_BASE", "OpsC09b"),
+                       ("PRUNE_ON_START", "OpsC09b")):
+        ncfg = tlc.write_cfg("MC_C09_neg_%s.cfg" % const, text.replace("%s = FALSE" % const, "%s = TRUE" % const)
+                             .replace("Ops <- OpsC09\n", "Ops <- %s\n" % ops).replace("PROPERTY RefinesStartup\n", ""))
+        nres = tlc.run("MC_C09", ncfg, allow_violation=True)
+        if not nres.violated:
+            raise common.MachineryFailure("Durability.tla: negative control %s is not refuted" % const)
+        controls[const] = nres.violated[0]
+    run.extra["negative_controls_refuted"] = controls
+    # unbounded: tlaps/StartupProof.tla proves Startup!Safety (a serving server has its whole schema) for any number of tables,
+    # crashes and restarts; RefinesStartup (checked above) carries it over to Durability.tla
+    nob = tlc.tlaps("StartupProof", deps=("Startup",))
+    run.extra["tlaps_proof"] = {"module": "spec/tlaps/StartupProof.tla", "theorem": "Startup!Safety == Spec => []Serviceable",
+                                "obligations_proved": nob}
+    run.extra["obligations"] = nob
+    run.extra["discharged"] = nob
     E.rsa_pair()
     base = os.path.join(common.scratch(), "c09_base.db")
     populate(base)
